@@ -26,6 +26,8 @@ import (
 	"sync"
 	"sync/atomic"
 	"unsafe"
+
+	"github.com/tochemey/goakt/v4/internal/verifhook"
 )
 
 // Queue defines a lock-free Queue.
@@ -66,22 +68,28 @@ func (q *Queue) Enqueue(v any) {
 	newNodePtr := unsafe.Pointer(newNode)
 
 	for {
+		verifhook.At("msq.enq.loadtail", q, int64(uintptr(newNodePtr)), 0)
 		tail := (*item)(atomic.LoadPointer(&q.tail))
+		verifhook.At("msq.enq.loadnext", q, int64(uintptr(unsafe.Pointer(tail))), 0)
 		next := atomic.LoadPointer(&tail.next)
 
 		// Another thread might have already enqueued a node
 		if next != nil {
 			// Try to help advance the tail
+			verifhook.At("msq.enq.help", q, int64(uintptr(unsafe.Pointer(tail))), int64(uintptr(next)))
 			atomic.CompareAndSwapPointer(&q.tail, unsafe.Pointer(tail), next)
 			continue
 		}
 
 		// Try to link the new node
+		verifhook.At("msq.enq.link", q, int64(uintptr(unsafe.Pointer(tail))), int64(uintptr(newNodePtr)))
 		if atomic.CompareAndSwapPointer(&tail.next, nil, newNodePtr) {
 			// Successfully linked, now try to advance tail
+			verifhook.At("msq.enq.swing", q, int64(uintptr(unsafe.Pointer(tail))), int64(uintptr(newNodePtr)))
 			atomic.CompareAndSwapPointer(&q.tail, unsafe.Pointer(tail), newNodePtr)
 
 			// Increment length atomically
+			verifhook.At("msq.enq.len", q, 0, 0)
 			atomic.AddInt64(&q.len, 1)
 
 			return
@@ -93,7 +101,9 @@ func (q *Queue) Enqueue(v any) {
 // It returns nil if the queue is empty.
 func (q *Queue) Dequeue() any {
 	for {
+		verifhook.At("msq.deq.loadhead", q, 0, 0)
 		head := (*item)(atomic.LoadPointer(&q.head))
+		verifhook.At("msq.deq.loadnext", q, int64(uintptr(unsafe.Pointer(head))), 0)
 		next := atomic.LoadPointer(&head.next)
 
 		// Queue is empty
@@ -104,14 +114,18 @@ func (q *Queue) Dequeue() any {
 		nextNode := (*item)(next)
 
 		// Try to advance the head
+		verifhook.At("msq.deq.cas", q, int64(uintptr(unsafe.Pointer(head))), int64(uintptr(next)))
 		if atomic.CompareAndSwapPointer(&q.head, unsafe.Pointer(head), next) {
 			// Get the value before potentially releasing the node
+			verifhook.At("msq.deq.readv", q, int64(uintptr(next)), 0)
 			value := nextNode.v
 
 			// Release the old head node back to the pool
+			verifhook.At("msq.deq.release", q, int64(uintptr(unsafe.Pointer(head))), 0)
 			q.releaseItem(head)
 
 			// Decrement length atomically
+			verifhook.At("msq.deq.len", q, 0, 0)
 			atomic.AddInt64(&q.len, -1)
 
 			return value
@@ -138,6 +152,8 @@ func (q *Queue) getItem() *item {
 func (q *Queue) releaseItem(i *item) {
 	// Reset i to prevent memory leaks
 	i.v = nil
+	verifhook.At("msq.rel.next", q, int64(uintptr(unsafe.Pointer(i))), 0)
 	i.next = nil
+	verifhook.At("msq.rel.put", q, int64(uintptr(unsafe.Pointer(i))), 0)
 	q.pool.Put(i)
 }
